@@ -58,7 +58,9 @@ RULE = ("every registry stage x >=3 parameter sets x 3 source modes (finite+slac
         "counting taps at every boundary, plus ControlStream histories, plus take/peek consumers (spelled counts: int / float "
         "/ Fraction / bool / inf / nan, ties, negatives), plus stopping stages (limit / skip / islice-stop / takewhile, alone and "
         "in chains <=3 quick, <=4 thorough) x 3 source modes asked up to 14 times incl. past their end, plus call shapes "
-        "(positional / keyword / defaults) and 4 kinds of head source object, drained stages asked twice past the end; "
+        "(positional / keyword / defaults) and 4 kinds of head source object, drained stages asked twice past the end, plus 13 "
+        "two-source constructors (map / zip / chain / zip_longest objects) over all source lengths 0..2 x 0..2 and random 0..9, "
+        "asked up to 14 times with a counter on both sources; "
         "a case is non-trivial when at least one output was demanded and delivered; distinct = distinct JSON case")
 TRUSTED = [
     "hand-written Lean models ALV/Model/C02.lean of the READ DISCIPLINE of each stage (prologue / one read per loop "
@@ -82,7 +84,11 @@ TRUSTED = [
     "stage are built as `cap` (hand on at most c outputs) followed by the plain loop - justified by the truncation theorem "
     "stop_truncates; CPython's islice (reads `max(start, stop)` items when drained) and takewhile (reads the failing item) "
     "are modelled from their C source and trusted as such; the chain-level closed forms needOfXChain are compared on every "
-    "case but proved only for limit, takewhile and S |> limit (probe_chain_eq_spec_PENDING)",
+    "case and proved equal to the protocol run for every valid chain (probe_chain_eq_spec, probe_chain_eq_spec_any_source)",
+    "two counted sources behind one C-level object when one of them ENDS (`two` entry, Model/C02Two.lean): CPython's map / zip "
+    "objects (next(a) then next(b), nothing remembered after a StopIteration: the first source is read again at every request "
+    "past the end), itertools.chain and zip_longest are modelled from their C source; Stream binary operators on two streams, "
+    "imap, izip, xzip, append, chain, chain.star, Stream(a, b), izip.longest are measured against them",
     "count spellings: Python's round (half to even) for limit / skip, audiolazy's rint (half away from zero) for take / peek, "
     "int(dur + .5) for attack are re-implemented on exact rationals in Lean (pyRound / rintPos / durLen); floats are sent as "
     "their exact rational value, inf / nan as tags with the predicted exception",
@@ -96,8 +102,10 @@ ASSUMPTIONS = [
     "count/trip/endless modes: sources are long enough for the K demanded outputs; the `drain` mode (finite source consumed "
     "to its end, pull counter at every output incl. the epilogue) is run only for stages whose end-of-source behaviour is "
     "not a defect owned by C03/C09/C19/C20 (D1, D6, D7, D11)",
-    "auxiliary sources are long enough for the K demanded outputs (finite: needed+slack, trip: exactly the needed items); "
-    "their end-of-stream behaviour belongs to C06/C19 (D13); in `drain` mode they are endless and not compared",
+    "auxiliary sources of `reads` / `ctl` cases are long enough for the K demanded outputs (finite: needed+slack, trip: exactly "
+    "the needed items); in `drain` mode they are endless and not compared; a partner / tail source that ENDS is covered by the "
+    "`two` entry for map / zip / chain / zip_longest objects only - coefficient streams ending inside a generated filter loop "
+    "belong to C06/C19 (D13)",
     "resample step streams: exact non-negative rational values (old/new cyclic patterns), at most one time-varying "
     "resample per chain (its step list for the model is sized from the demand of the chain behind it, <= 1500 values)",
     "size>=1, hop>=1, hop<=size for overlap-add/STFT, resample order>=1 and old/new>0 (exact Fractions), Streamix delta>=0",
@@ -1489,6 +1497,58 @@ def _ctl_case(rng, name, K):
     return {"entry": "ctl", "chain": chain, "k": K, "cv": cv}
 
 
+# ----------------------------------------------------------------------------------------------
+# two counted sources behind ONE object of the C level, one of which ends ("two" entry)
+#   mapzip : map / zip object (Stream binary operators on two streams, imap, izip, xzip)
+#   chain  : itertools.chain (append, chain, Stream(a, b))
+#   longest: itertools.zip_longest (izip_longest)
+# model: ALV/Model/C02Two.lean; theorems mapzip_probe / chain2_probe / longest_probe
+# ----------------------------------------------------------------------------------------------
+def _two_table():
+    al = _al()
+    import operator
+    S = al.Stream
+    return {
+        "add": ("mapzip", lambda a, b: S(a) + S(b)),
+        "mul.iter": ("mapzip", lambda a, b: S(a) * b),
+        "rsub": ("mapzip", lambda a, b: S(b).__rsub__(S(a))),     # reflected operator: `other` is read first
+        "lt": ("mapzip", lambda a, b: S(a) < S(b)),
+        "imap": ("mapzip", lambda a, b: al.imap(operator.add, a, b)),
+        "izip": ("mapzip", lambda a, b: al.izip(a, b)),
+        "xzip": ("mapzip", lambda a, b: S(al.xzip(a, b))),
+        "append.stream": ("chain", lambda a, b: S(a).append(S(b))),
+        "append.iter": ("chain", lambda a, b: S(a).append(b)),
+        "chain": ("chain", lambda a, b: al.chain(a, b)),
+        "chain.star": ("chain", lambda a, b: al.chain.star([a, b]) if hasattr(al.chain, "star") else al.chain(a, b)),
+        "Stream2": ("chain", lambda a, b: S(a, b)),
+        "izip.longest": ("longest", lambda a, b: al.izip.longest(a, b) if hasattr(al.izip, "longest") else al.izip_longest(a, b)),
+    }
+
+
+TWO_NAMES = ("add", "mul.iter", "rsub", "lt", "imap", "izip", "xzip", "append.stream", "append.iter", "chain",
+             "chain.star", "Stream2", "izip.longest")
+
+
+def _run_two(c):
+    kind, build = _two_table()[c["how"]]
+    a, b = Src(c["na"], vals="pos"), Src(c["nb"], vals="pos", salt=1)
+    st = build(a, b)
+    c0 = [a.count, b.count]
+    itr = iter(st)
+    c1 = [a.count, b.count]
+    req = []
+    for _ in range(c["k"]):
+        try:
+            next(itr)
+            ok = True
+        except StopIteration:
+            ok = False
+        except Exception as e:
+            return {"err": err_kind(e), "errmsg": str(e)[:200], "req": req}
+        req.append([ok, a.count, b.count])
+    return {"c0": c0, "c1": c1, "req": req}
+
+
 def generate(rng, tier, scale=1):
     R = registry()
     cases = []
@@ -1567,6 +1627,15 @@ def generate(rng, tier, scale=1):
             num = {"kind": rng.choice(["inf", "-inf", "nan"])}
         cases.append({"entry": "take", "num": num, "len": rng.choice([0, n, n + 1, n + 5, rng.randint(0, 12)]),
                       "how": rng.choice(["take", "take", "peek", "hub.peek", "take.kw"])})
+    # two counted sources behind one C-level object, one of which ends
+    for how in TWO_NAMES:
+        if scale == 1:
+            for na in range(3):
+                for nb in range(3):
+                    cases.append({"entry": "two", "how": how, "na": na, "nb": nb, "k": na + nb + 2})
+        for i in range((12 if quick else 150) * scale):
+            cases.append({"entry": "two", "how": how, "na": rng.randint(0, 9), "nb": rng.randint(0, 9),
+                          "k": rng.choice([1, 3, 6, 9, 12, 14])})
     return [c for c in _xattach(_attach(cases)) if not _oversized(c)]
 
 
@@ -1768,6 +1837,11 @@ def impl(c):
         finally:
             signal.setitimer(signal.ITIMER_REAL, 0)
             signal.signal(signal.SIGALRM, old)
+    if c["entry"] == "two":
+        try:
+            return _run_two(c)
+        except Exception as e:
+            return {"err": "build:" + err_kind(e), "errmsg": str(e)[:300]}
     if c["entry"] == "take" and "num" in c:
         # consumers with a SPELLED count: items pulled by the call, items handed out, and what is left
         src = Src(c["len"], trip=False)
@@ -1818,6 +1892,8 @@ def request(c):
     if c["entry"] == "probe":
         n = c["need"] + (64 if c["mode"] == "endless" else (0 if c["mode"] == "trip" else c["slack"]))
         return {"entry": "probe", "chain": _xmodel_chain(c), "n": n, "k": c["k"]}
+    if c["entry"] == "two":
+        return {"entry": "two", "kind": _two_table()[c["how"]][0], "na": c["na"], "nb": c["nb"], "k": c["k"]}
     return {k: v for k, v in c.items() if k in ("entry", "n", "len", "k", "num")}
 
 
@@ -1924,6 +2000,18 @@ def compare(c, io, drv):
             for d in _diff_probe(c, io, drv, which):
                 out.append((which, d))
         return out
+    if c["entry"] == "two":
+        what = "%s over sources of %d and %d items" % (c["how"], c["na"], c["nb"])
+        if "err" in io:
+            return [("model", "%s: impl run failed: %s (%s)" % (what, io["err"], io.get("errmsg", "")))]
+        if io["c0"] != drv["construct"] or io["c1"] != drv["construct"]:
+            out.append(("spec", "%s: read at construction / iter(): %r %r" % (what, io["c0"], io["c1"])))
+        for which in ("model", "spec"):
+            if io["req"] != drv[which]:
+                j = next(i for i in range(len(io["req"])) if io["req"][i] != drv[which][i])
+                out.append((which, "%s: request %d [delivered, reads first, reads second] impl=%r %s=%r" % (
+                    what, j + 1, io["req"][j], which, drv[which][j])))
+        return out
     if c["entry"] == "take" and "num" in c:
         what = "%s(%r) on %d items" % (c["how"], unspell(c["num"]), c["len"])
         if "err" in drv:
@@ -1987,6 +2075,13 @@ def tally(eng, c, io):
             eng.count("requests_past_the_end", min(past, 3))
             errs = [r for r in io["req"] if r not in (True, False)]
             eng.count("probe_result", "raises " + errs[0] if errs else "ended" if past else "not exhausted")
+        return
+    if c["entry"] == "two":
+        eng.count("two_sources", "%s:%s" % (_two_table()[c["how"]][0],
+                  "err" if "err" in io else "equal" if c["na"] == c["nb"] else
+                  "second ends first" if c["nb"] < c["na"] else "first ends first"))
+        if "req" in io:
+            eng.count("two_requests_past_the_end", min(sum(1 for r in io["req"] if not r[0]), 3))
         return
     if c["entry"] == "take" and "num" in c:
         eng.count("count_spelling", "%s(%s)" % (c["how"], spell_tag(c["num"])))
@@ -2123,6 +2218,12 @@ def shrink(c):
         for x in cands:
             yield x
         return
+    if c["entry"] == "two":
+        for na, nb, k in ((c["na"] // 2, c["nb"] // 2, c["k"]), (c["na"] - 1, c["nb"], c["k"]), (c["na"], c["nb"] - 1, c["k"]),
+                          (c["na"], c["nb"], c["k"] - 1)):
+            if na >= 0 and nb >= 0 and k >= 1 and (na, nb, k) != (c["na"], c["nb"], c["k"]):
+                yield dict(c, na=na, nb=nb, k=k)
+        return
     if c["entry"] not in ("reads", "ctl"):
         return
     _SHRINK_CALLS[0] += 1
@@ -2190,6 +2291,11 @@ def neighbours(c):
         for x in cands:
             yield x
         return
+    if c["entry"] == "two":
+        for na in (0, 1, 3):
+            for nb in (0, 1, 3):
+                yield dict(c, na=na, nb=nb, k=na + nb + 2)
+        return
     if c["entry"] != "reads":
         return
     cands = []
@@ -2239,6 +2345,17 @@ def classify(c, io, drv):
                 past = "-past-the-end" if io["req"][j] is not True else ""
                 return "%s:probe:%s%s" % (names[i], "over-read" if j >= len(exp) or got[j] > exp[j] else "under-read", past)
         return "%s:probe:other" % st
+    if c["entry"] == "two":
+        if "err" in io:
+            return "two:%s:err:%s" % (c["how"], io["err"])
+        if any(io["c0"]) or any(io["c1"]):
+            return "two:%s:reads-at-construction" % c["how"]
+        for r, e in zip(io["req"], drv["model"]):
+            if r != e:
+                which = "first" if r[1] != e[1] else "second" if r[2] != e[2] else "delivery"
+                past = "-past-the-end" if not e[0] else ""
+                return "two:%s:%s-%s%s" % (c["how"], which, "over-read" if (r[1], r[2]) > (e[1], e[2]) else "under-read", past)
+        return "two:%s:other" % c["how"]
     if c["entry"] == "take" and "num" in c:
         return "%s:spelled-count:%s" % (c["how"], "err:" + io["err"] if "err" in io else "over-read" if io.get("pulled", 0) > drv.get("model", 0) else "other")
     if c["entry"] != "reads":
